@@ -418,31 +418,12 @@ fn soft_keywords_named(cx: &mut Ctx, rule: &str, lookahead: bool) {
     if lookahead {
         soft_keyword_lookahead(cx, &sk, nx, &format!("{}b", rule));
     }
-    // start-of-line set: the last matches!( tok, ... ) in the start_of_line assignment
-    let mut sol: Option<BTreeSet<String>> = None;
-    sm::for_each_expr_in_block(&nx.block, |e| {
-        if let syn::Expr::Assign(a) = e {
-            if sm::tsc(&a.left) == "self.start_of_line" {
-                sm::for_each_expr(&a.right, |x| {
-                    if let syn::Expr::Macro(m) = x {
-                        if m.mac.path.is_ident("matches") {
-                            let s: String = m.mac.tokens.to_string().chars().filter(|c| !c.is_whitespace()).collect();
-                            if let Some(rest) = s.strip_prefix("tok,") {
-                                let set: BTreeSet<String> = rest.split('|').map(|p| p.trim_start_matches("Tok::").to_string()).collect();
-                                if !rest.contains("NonLogicalNewline") {
-                                    sol = Some(set);
-                                }
-                            }
-                        }
-                    }
-                });
-            }
-        }
-    });
+    // start-of-line set: the update of self.start_of_line, interpreted for every token kind
     let want: BTreeSet<String> = ["StartModule", "StartInteractive", "Newline", "Indent", "Dedent"].iter().map(|s| s.to_string()).collect();
-    match sol {
-        Some(s) if s == want => cx.ok(rule, "start-of-line set = {StartModule, StartInteractive, Newline, Indent, Dedent}"),
-        other => cx.fail(rule, &format!("{}/start-of-line-set", rule), &sk.loc(nx), &format!("start-of-line token set is {:?}", other)),
+    match sm::load(&cx.repo, "parser/src/token.rs").and_then(|token| start_of_line_update(&sk, &token, false)) {
+        Ok((sets, keeps)) if sets == want && keeps.is_empty() => cx.ok(rule, "start-of-line set = {StartModule, StartInteractive, Newline, Indent, Dedent} (interpreted for every token kind; end of stream and errors give false)"),
+        Ok((sets, keeps)) => cx.fail(rule, &format!("{}/start-of-line-set", rule), &sk.loc(nx), &format!("start-of-line token set is {:?} (unchanged for {:?})", sets, keeps)),
+        Err(e) => cx.fail(rule, &format!("{}/start-of-line-set", rule), &sk.loc(nx), &format!("the start_of_line update cannot be interpreted: {}", e)),
     }
     // constructor: start_of_line initialised for Module|Interactive
     if let Some((_, n)) = sk.methods("SoftKeywordTransformer", "new").into_iter().next() {
@@ -453,6 +434,57 @@ fn soft_keywords_named(cx: &mut Ctx, rule: &str, lookahead: bool) {
             cx.fail(rule, &format!("{}/initial", rule), &sk.loc(n), "initial start_of_line is not matches!(mode, Interactive | Module)");
         }
     }
+}
+
+/// The update `self.start_of_line = <expr>` of SoftKeywordTransformer::next, interpreted for every token kind:
+/// returns (kinds that set it, kinds that leave it unchanged, problems). `full_lexer` selects the configuration.
+pub fn start_of_line_update(sk: &Src, token: &Src, full_lexer: bool) -> Result<(BTreeSet<String>, BTreeSet<String>), String> {
+    let (_, nx) = sk.methods("SoftKeywordTransformer", "next").into_iter().next().ok_or("SoftKeywordTransformer::next")?;
+    let mut rhs: Option<syn::Expr> = None;
+    sm::for_each_expr_in_block(&nx.block, |e| {
+        if let syn::Expr::Assign(a) = e {
+            if sm::tsc(&a.left) == "self.start_of_line" {
+                rhs = Some((*a.right).clone());
+            }
+        }
+    });
+    let rhs = rhs.ok_or("no assignment to self.start_of_line in next()")?;
+    let methods = |_: &crate::eval::V, _: &str, _: &[crate::eval::V]| -> Option<crate::eval::V> { None };
+    let mut sets = BTreeSet::new();
+    let mut keeps = BTreeSet::new();
+    let run = |next: crate::eval::V| -> Result<crate::eval::V, String> {
+        let mut m = crate::eval::Machine::new(&methods);
+        if full_lexer {
+            m.features.push("full-lexer".into());
+        }
+        m.set("next", next);
+        m.set("self.start_of_line", crate::eval::V::Enum("PREVIOUS".into()));
+        m.eval(&rhs)
+    };
+    for (v, cfg, _) in tables::tok_variants(token) {
+        if cfg.as_deref() == Some("full-lexer") && !full_lexer {
+            continue;
+        }
+        let tokv = crate::eval::V::Tuple(vec![crate::eval::V::Enum(format!("Tok::{}", v)), crate::eval::V::Unit]);
+        match run(crate::eval::V::Opt(Some(Box::new(tokv))))? {
+            crate::eval::V::Bool(true) => {
+                sets.insert(v);
+            }
+            crate::eval::V::Bool(false) => {}
+            crate::eval::V::Enum(e) if e == "PREVIOUS" => {
+                keeps.insert(v);
+            }
+            other => return Err(format!("token {} -> {:?}", v, other)),
+        }
+    }
+    // end of stream and lexical errors never start a line
+    for (what, v) in [("None", crate::eval::V::Opt(None)), ("Some(Err(_))", crate::eval::V::Opt(Some(Box::new(crate::eval::V::Enum("Err(e)".into())))))] {
+        match run(v)? {
+            crate::eval::V::Bool(false) => {}
+            other => return Err(format!("{} -> {:?} (false expected)", what, other)),
+        }
+    }
+    Ok((sets, keeps))
 }
 
 /// C01.S2: look-ahead loops with a bracket-depth counter.
